@@ -74,19 +74,19 @@ fn pc_member_roundtrip() {
     let mut c = PostcardCodec;
     let mut buf: Vec<u8> = Vec::with_capacity(16);
     let r = c.encode_member(&m, &mut buf);
-    assert!(r.is_ok(), "c20: encoding into a growable buffer succeeds");
+    kani::assert(r.is_ok(), "c20: encoding into a growable buffer succeeds");
     let n = buf.len();
-    assert!(n >= 4 && n <= 6, "c20: postcard member is 4..=6 bytes");
+    kani::assert(n >= 4 && n <= 6, "c20: postcard member is 4..=6 bytes");
     // followed by further data: exactly the bytes produced are consumed
     buf.push(kani::any());
     let mut rd: &[u8] = &buf[..];
     let back = c.decode_member(&mut rd);
     match back {
         Ok(b) => {
-            assert!(b == m, "c20: member decodes back to an equal value");
-            assert!(rd.remaining() == 1, "c20: decoding consumes exactly the bytes produced, even when followed by further data");
+            kani::assert(b == m, "c20: member decodes back to an equal value");
+            kani::assert(rd.remaining() == 1, "c20: decoding consumes exactly the bytes produced, even when followed by further data");
         }
-        Err(_) => assert!(false, "c20: a valid member encoding decodes"),
+        Err(_) => kani::assert(false, "c20: a valid member encoding decodes"),
     }
     kani::cover!(m.incarnation() == u16::MAX, "max incarnation");
     kani::cover!(n == 4, "shortest encoding");
@@ -105,16 +105,16 @@ fn pc_header_roundtrip(variant: u8) {
     let mut c = PostcardCodec;
     let mut buf: Vec<u8> = Vec::with_capacity(24);
     let r = c.encode_header(&h, &mut buf);
-    assert!(r.is_ok(), "c20: encoding into a growable buffer succeeds");
+    kani::assert(r.is_ok(), "c20: encoding into a growable buffer succeeds");
     buf.push(kani::any());
     let total = buf.len();
     let mut rd: &[u8] = &buf[..];
     match c.decode_header(&mut rd) {
         Ok(b) => {
-            assert!(b == h, "c20: header decodes back to an equal value");
-            assert!(rd.remaining() == 1, "c20: decoding consumes exactly the bytes produced, even when followed by further data");
+            kani::assert(b == h, "c20: header decodes back to an equal value");
+            kani::assert(rd.remaining() == 1, "c20: decoding consumes exactly the bytes produced, even when followed by further data");
         }
-        Err(_) => assert!(false, "c20: a valid header encoding decodes"),
+        Err(_) => kani::assert(false, "c20: a valid header encoding decodes"),
     }
     kani::cover!(h.src_incarnation == u16::MAX, "max incarnation");
     kani::cover!(total > 8, "encoded");
@@ -157,14 +157,14 @@ fn c20_pc_member_short_buffer() {
     let mut lim = buf.limit(limit);
     let r = c.encode_member(&m, &mut lim);
     let out = lim.into_inner();
-    assert!(out.len() <= limit, "c20: never writes past the space given");
+    kani::assert(out.len() <= limit, "c20: never writes past the space given");
     // full length of this member's encoding
     let mut full: Vec<u8> = Vec::with_capacity(8);
     let _ = c.encode_member(&m, &mut full);
     if limit < full.len() {
-        assert!(r.is_err(), "c20: encoding into a buffer with insufficient space returns an error");
+        kani::assert(r.is_err(), "c20: encoding into a buffer with insufficient space returns an error");
     } else {
-        assert!(r.is_ok() && out.len() == full.len(), "c20: encoding succeeds when the space suffices");
+        kani::assert(r.is_ok() && out.len() == full.len(), "c20: encoding succeeds when the space suffices");
     }
     kani::cover!(r.is_err() && out.len() > 0, "partial write before the error");
     core::mem::forget(out);
@@ -183,10 +183,10 @@ fn c20_pc_member_arbitrary_bytes() {
     let mut c = PostcardCodec;
     let mut rd: &[u8] = &bytes[..len];
     let r: Result<Member<SId>, _> = c.decode_member(&mut rd);
-    assert!(rd.remaining() <= len, "c20: never reads past the input");
+    kani::assert(rd.remaining() <= len, "c20: never reads past the input");
     if let Ok(m) = &r {
         // whatever decodes re-encodes to at most what was consumed (canonical or shorter)
-        assert!(len - rd.remaining() >= 4, "c20: a member needs at least 4 bytes");
+        kani::assert(len - rd.remaining() >= 4, "c20: a member needs at least 4 bytes");
     }
     kani::cover!(r.is_ok(), "arbitrary bytes decode");
     kani::cover!(r.is_err() && len == 8, "arbitrary bytes rejected");
@@ -203,7 +203,7 @@ fn c20_pc_header_arbitrary_bytes() {
     let mut c = PostcardCodec;
     let mut rd: &[u8] = &bytes[..len];
     let r: Result<Header<SId>, _> = c.decode_header(&mut rd);
-    assert!(rd.remaining() <= len, "c20: never reads past the input");
+    kani::assert(rd.remaining() <= len, "c20: never reads past the input");
     kani::cover!(r.is_ok(), "arbitrary bytes decode");
     kani::cover!(r.is_err() && len == 12, "arbitrary bytes rejected");
     core::mem::forget(r);
@@ -247,14 +247,14 @@ fn c20_bc_member_encode_matches_reference() {
     let mut c = bc();
     let mut buf: Vec<u8> = Vec::with_capacity(16);
     let r = c.encode_member(&m, &mut buf);
-    assert!(r.is_ok(), "c20: encoding into a growable buffer succeeds");
+    kani::assert(r.is_ok(), "c20: encoding into a growable buffer succeeds");
     let mut want: Vec<u8> = Vec::with_capacity(16);
     ref_member(&m, &mut want);
-    assert!(buf.len() == want.len(), "c20: bincode member encoding has the specified length");
+    kani::assert(buf.len() == want.len(), "c20: bincode member encoding has the specified length");
     let mut i = 0;
     while i < 6 {
         if i < want.len() {
-            assert!(buf[i] == want[i], "c20: bincode member encoding matches the specification byte for byte");
+            kani::assert(buf[i] == want[i], "c20: bincode member encoding matches the specification byte for byte");
         }
         i += 1;
     }
@@ -279,10 +279,10 @@ fn c20_bc_member_decode_reference() {
     let r: Result<Member<SId>, _> = c.decode_member(&mut rd);
     match &r {
         Ok(b) => {
-            assert!(*b == m, "c20: member decodes back to an equal value");
-            assert!(rd.remaining() == 1, "c20: decoding consumes exactly the bytes produced, even when followed by further data");
+            kani::assert(*b == m, "c20: member decodes back to an equal value");
+            kani::assert(rd.remaining() == 1, "c20: decoding consumes exactly the bytes produced, even when followed by further data");
         }
-        Err(_) => assert!(false, "c20: a valid member encoding decodes"),
+        Err(_) => kani::assert(false, "c20: a valid member encoding decodes"),
     }
     kani::cover!(m.incarnation() >= 251, "three-byte varint");
     core::mem::forget(r);
@@ -301,12 +301,12 @@ fn c20_bc_member_short_buffer() {
     let mut lim = buf.limit(limit);
     let r = c.encode_member(&m, &mut lim);
     let out = lim.into_inner();
-    assert!(out.len() <= limit, "c20: never writes past the space given");
+    kani::assert(out.len() <= limit, "c20: never writes past the space given");
     let need = if m.incarnation() < 251 { 4 } else { 6 };
     if limit < need {
-        assert!(r.is_err(), "c20: encoding into a buffer with insufficient space returns an error");
+        kani::assert(r.is_err(), "c20: encoding into a buffer with insufficient space returns an error");
     } else {
-        assert!(r.is_ok() && out.len() == need, "c20: encoding succeeds when the space suffices");
+        kani::assert(r.is_ok() && out.len() == need, "c20: encoding succeeds when the space suffices");
     }
     kani::cover!(r.is_err(), "short buffer");
     core::mem::forget(r);
@@ -323,7 +323,7 @@ fn c20_bc_member_arbitrary_bytes() {
     let mut c = bc();
     let mut rd: &[u8] = &bytes[..len];
     let r: Result<Member<SId>, _> = c.decode_member(&mut rd);
-    assert!(rd.remaining() <= len, "c20: never reads past the input");
+    kani::assert(rd.remaining() <= len, "c20: never reads past the input");
     kani::cover!(r.is_ok(), "arbitrary bytes decode");
     kani::cover!(r.is_err() && len == 6, "arbitrary bytes rejected");
     core::mem::forget(r);
@@ -334,16 +334,16 @@ fn bc_header_roundtrip(variant: u8) {
     let mut c = bc();
     let mut buf: Vec<u8> = Vec::with_capacity(24);
     let r = c.encode_header(&h, &mut buf);
-    assert!(r.is_ok(), "c20: encoding into a growable buffer succeeds");
+    kani::assert(r.is_ok(), "c20: encoding into a growable buffer succeeds");
     buf.push(kani::any());
     let mut rd: &[u8] = &buf[..];
     let back: Result<Header<SId>, _> = c.decode_header(&mut rd);
     match &back {
         Ok(b) => {
-            assert!(*b == h, "c20: header decodes back to an equal value");
-            assert!(rd.remaining() == 1, "c20: decoding consumes exactly the bytes produced, even when followed by further data");
+            kani::assert(*b == h, "c20: header decodes back to an equal value");
+            kani::assert(rd.remaining() == 1, "c20: decoding consumes exactly the bytes produced, even when followed by further data");
         }
-        Err(_) => assert!(false, "c20: a valid header encoding decodes"),
+        Err(_) => kani::assert(false, "c20: a valid header encoding decodes"),
     }
     kani::cover!(h.src_incarnation >= 251, "three-byte varint");
     core::mem::forget(r);
@@ -376,9 +376,9 @@ fn c06_config_new_lan() {
     let n: u32 = kani::any();
     kani::assume(n >= 1);
     let c = Config::new_lan(NonZeroU32::new(n).unwrap());
-    assert!(c.max_transmissions.get() >= 1, "c06: max_transmissions is non-zero");
-    assert!(c.suspect_to_down_after.as_secs() >= 4 && c.suspect_to_down_after.as_secs() <= 40, "c06: suspicion duration stays in range");
-    assert!(c.probe_rtt < c.probe_period, "c06: probe_rtt < probe_period");
+    kani::assert(c.max_transmissions.get() >= 1, "c06: max_transmissions is non-zero");
+    kani::assert(c.suspect_to_down_after.as_secs() >= 4 && c.suspect_to_down_after.as_secs() <= 40, "c06: suspicion duration stays in range");
+    kani::assert(c.probe_rtt < c.probe_period, "c06: probe_rtt < probe_period");
     kani::cover!(n == u32::MAX, "largest cluster");
 }
 
@@ -388,8 +388,8 @@ fn c06_config_new_wan() {
     let n: u32 = kani::any();
     kani::assume(n >= 1);
     let c = Config::new_wan(NonZeroU32::new(n).unwrap());
-    assert!(c.max_transmissions.get() >= 1, "c06: max_transmissions is non-zero");
-    assert!(c.suspect_to_down_after.as_secs() >= 30 && c.suspect_to_down_after.as_secs() <= 300, "c06: suspicion duration stays in range");
-    assert!(c.probe_rtt < c.probe_period, "c06: probe_rtt < probe_period");
+    kani::assert(c.max_transmissions.get() >= 1, "c06: max_transmissions is non-zero");
+    kani::assert(c.suspect_to_down_after.as_secs() >= 30 && c.suspect_to_down_after.as_secs() <= 300, "c06: suspicion duration stays in range");
+    kani::assert(c.probe_rtt < c.probe_period, "c06: probe_rtt < probe_period");
     kani::cover!(n == 1, "single node");
 }
